@@ -186,6 +186,20 @@ func (f *Flat) inline(stack map[string]bool, depth int) {
 				}
 			}
 		}
+		if callee == nil {
+			// a local closure: skip := func(step string, err error) {...}; skip("get", err) - the variable is defined
+			// once, by a function literal, in the body this graph was built from
+			if id, ok := ast.Unparen(call.Fun).(*ast.Ident); ok && f.Body != nil {
+				if o := objOf(f.Pkg.TypesInfo, id); o != nil {
+					if _, isVar := o.(*types.Var); isVar {
+						if lit, ok := ast.Unparen(singleAssignedIn(f.Pkg.TypesInfo, f.Body, o)).(*ast.FuncLit); ok && lit != nil {
+							sig, _ := f.Pkg.TypesInfo.Types[lit].Type.(*types.Signature)
+							callee = &FuncInfo{Key: "lit@" + f.P.pos(lit), Pkg: f.Pkg, Lit: lit, LitSig: sig}
+						}
+					}
+				}
+			}
+		}
 		if callee == nil || callee.Pkg != f.Pkg || callee.Sig() == nil || callee.Sig().Variadic() {
 			continue
 		}
@@ -652,4 +666,29 @@ func (f *Flat) rawPath(e ast.Expr) string {
 		return f.rawPath(x.X)
 	}
 	return ""
+}
+
+// singleAssignedIn: the one expression ever assigned to the local o in body (a BadExpr when there are none or several).
+func singleAssignedIn(info *types.Info, body ast.Node, o types.Object) ast.Expr {
+	var rhs ast.Expr
+	n := 0
+	ast.Inspect(body, func(x ast.Node) bool {
+		if as, ok := x.(*ast.AssignStmt); ok {
+			for i, l := range as.Lhs {
+				if objOf(info, l) == o {
+					n++
+					if len(as.Lhs) == len(as.Rhs) {
+						rhs = as.Rhs[i]
+					} else {
+						rhs = nil
+					}
+				}
+			}
+		}
+		return true
+	})
+	if n != 1 || rhs == nil {
+		return &ast.BadExpr{}
+	}
+	return rhs
 }
